@@ -61,11 +61,13 @@ type c02Sys struct{}
 type c02Propose struct{ root string }
 type c02Delete struct{ idx uint64 }
 type c02Advance struct{ d time.Duration }
+
 // c02Neighbour is the bridge with a paid withdrawal of its own; bridge 2, between it and the explored bridge 1, is idle.
 const c02Neighbour = 3
 
 type c02Restart struct{}
 type c02NewBridge struct{}
+type c02Config struct{ what string }
 type c02Finalize struct {
 	w     int
 	idx   uint64
@@ -127,6 +129,9 @@ func (c02Sys) Letters(s *c02State) []engine.Letter {
 	if n, err := s.w.HK.GetNextBridgeId(s.ctx); err == nil && n == 4 {
 		ls = append(ls, engine.Letter{Name: "CreateBridge(one more)", Data: c02NewBridge{}})
 	}
+	// the bridge's configuration is rewritten while claims exist (none of it is about claims)
+	ls = append(ls, engine.Letter{Name: "UpdateOracleConfig(b1,flip)", Data: c02Config{"oracle"}})
+	ls = append(ls, engine.Letter{Name: "UpdateBatchInfo(b1)", Data: c02Config{"batch"}})
 	for wi := 0; wi < 3; wi++ {
 		for idx := uint64(1); idx <= 2; idx++ {
 			for _, pr := range []string{"R12", "R123"} {
@@ -151,6 +156,21 @@ func (c02Sys) Step(s *c02State, l engine.Letter) (*c02State, string, *engine.Vio
 	switch d := l.Data.(type) {
 	case c02Advance:
 		c.ctx = world.Advance(ctx, d.d)
+		return c, "ok", nil
+	case c02Config:
+		var m sdk.Msg
+		if d.what == "oracle" {
+			cfg, err := s.w.HK.GetBridgeConfig(ctx, 1)
+			if err != nil {
+				panic(err)
+			}
+			m = ophosttypes.NewMsgUpdateOracleConfig(s.w.Authority, 1, !cfg.OracleEnabled)
+		} else {
+			m = ophosttypes.NewMsgUpdateBatchInfo(s.w.Authority, 1, ophosttypes.BatchInfo{Submitter: world.Addr("submitter").String(), ChainType: ophosttypes.BatchInfo_CHAIN_TYPE_CELESTIA})
+		}
+		if res := s.w.Deliver(ctx, m); !res.OK() {
+			return c, "rejected", viol("harness-expectation", "%s by governance failed: %v", l.Name, res.Err)
+		}
 		return c, "ok", nil
 	case c02NewBridge:
 		res := s.w.Deliver(ctx, ophosttypes.NewMsgCreateBridge(world.Addr("creator").String(), world.BridgeConfig("proposer2", "challenger2", c02Period)))
